@@ -34,7 +34,7 @@ for p in props:
     })
 m = {
     "version": 1,
-    "setup_cmd": "cd /verif/lean && lake build && cd /verif/harness && CARGO_NET_OFFLINE=true cargo build --offline",
+    "setup_cmd": "cd /verif/lean && lake build && cd /verif/harness && export CARGO_NET_OFFLINE=true && cargo build --offline && CARGO_TARGET_DIR=target-release cargo build --offline --release && (RUSTFLAGS=-Zsanitizer=address CARGO_TARGET_DIR=target-asan cargo +nightly build --offline --target x86_64-unknown-linux-gnu || true)",
     "hooks": {"guard": "graaf_verif", "enable": "no hook needed: thread count is steered with taskset, allocation counting / panics are observed in the harness (RUSTFLAGS=--cfg graaf_verif reserved)",
               "baseline_off_cmd": "cd /repo && cargo test --workspace --no-fail-fast --offline", "source_commits": [], "add_only": True},
     "engines": [{"name": "lean4-model+correspondence", "path": "/verif/check", "serves_properties": claimed,
